@@ -16,6 +16,9 @@ structure St where
   dumped : Bool := false
   atDump : Option FS := none
   released : Bool := false
+  completed : List Nat := []          -- ids of the snapshots the current store holds as completed
+  fresh : Bool := false               -- nothing touched the operators' files since the last successful load
+  cleanLoad : Bool := false           -- that load started from a wiped working storage
   frozen : Bool := false
   wiped : Bool := false
   created : List (Nat × FS) := []     -- successful savepoints: id ↦ storage right after the creation
@@ -81,7 +84,6 @@ def isWorkFile : Path → Bool
 
 def lister : Lister := .byId
 
-def jobURI (id : Nat) : URI := ⟨"", s!"job:{id}"⟩
 
 def splitFeed (ws : List String) : List String × List String :=
   (ws.takeWhile (· ≠ "##"), (ws.dropWhile (· ≠ "##")).drop 1)
@@ -97,7 +99,10 @@ def afterAck (st : St) (r : Store × Option Published) : St :=
 
 def step (st : St) (line : List String) : St × String :=
   let (op, fed) := splitFeed line
-  let st' := { st with dumped := false, released := false }
+  let touches := match op with
+    | "put" :: _ | "del" :: _ | "opck" :: _ | "redeploy" :: _ | "retain" :: _ | "lose" :: _ | "wipe" :: _ | "junk" :: _ => true
+    | _ => false
+  let st' := { st with dumped := false, released := false, fresh := st.fresh && !touches }
   let live := !st.wiped
   match op with
   | ["put", _, _, _] | ["del", _, _] | ["put", _, _] =>
@@ -155,10 +160,13 @@ def step (st : St) (line : List String) : St × String :=
       match st.parked[natOr k]? with
       | none => (st', "nothing")
       | some pub =>
-        let r := publish lister st.fs (jobURI pub.1.id) pub
-        let st2 := { st' with fs := r.1, parked := st.parked.eraseIdx (natOr k), released := true }
+        let id := pub.1.id
+        let r := publish lister st.fs (jobURI id) pub
+        -- the obsolete (older) job snapshot files are removed, by id
+        let st2 := { st' with fs := cleanup r.1 (st.completed.filter (· < id)), parked := st.parked.eraseIdx (natOr k),
+                              released := true, completed := id :: st.completed.filter (· ≥ id) }
         if !r.2 then (st2, s!"savepoint-error {pub.1.id}")
-        else if pub.2 then ({ st2 with created := (pub.1.id, r.1) :: st.created }, s!"published {pub.1.id} savepoint")
+        else if pub.2 then ({ st2 with created := (id, r.1) :: st.created }, s!"published {id} savepoint")
         else (st2, s!"published {pub.1.id}")
   | ["art"] =>
       -- only complete artifacts (those with a job.savepoint); leftovers of failed creations are not compared
@@ -168,22 +176,27 @@ def step (st : St) (line : List String) : St × String :=
         | .sp id _ _ => complete id
         | .spJob _ => true))
   | ["work"] =>
-      if live then (st', "notwiped") else if st.loaded.isNone then (st', "noload") else (st', listing st.fs isWorkFile)
-  | ["wipe"] => ({ st' with fs := wipe st.fs, wiped := true, parked := [] }, "ok")
+      if st.loaded.isNone then (st', "noload") else if !(st.fresh && st.cleanLoad) then (st', "notclean")
+      else (st', listing st.fs isWorkFile)
+  | ["wipe"] => ({ st' with fs := wipe st.fs, wiped := true, parked := [], loaded := none }, "ok")
   | ["junk", _] =>
       if live then (st', "notwiped") else
       match fed with
       | "junk" :: uri :: _ => ({ st' with fs := write (.work (pURI uri)) .junk st.fs }, s!"junk {uri}")
       | _ => (st', "none")
   | ["load", id] =>
-      if live then (st', "notwiped") else
+      -- a (re)start of the job from a savepoint URI: after a wipe, or as a roll-back while the job was running
       match loadFromSavepoint lister st.fs (natOr id) with
-      | (fs, some s) => ({ st' with fs := fs, loaded := some s }, s!"loaded {rContent (.job s)}")
-      | (fs, none) => ({ st' with fs := fs, loaded := none }, "load-error")
+      | (fs, some s) =>
+        ({ st' with fs := fs, loaded := some s, store := { pending := none, ckptId := s.id }, acked := [], srcAcked := false,
+                    parked := [], wiped := false, frozen := false, completed := [s.id], fresh := true, cleanLoad := st.wiped },
+         s!"loaded {rContent (.job s)}")
+      | (fs, none) => ({ st' with fs := fs, loaded := none, parked := [], wiped := true }, "load-error")
   | ["open", i] =>
       match st.loaded with
       | none => (st', "noload")
       | some s =>
+        if !st.fresh then (st', "stale") else
         match s.ops.find? (fun o => o.op == "op" ++ i) with
         | none => (st', "noop")
         | some o =>
